@@ -153,6 +153,34 @@ func c05Transfer(r *core.Result, a, from, to spice.Melange, viaDrain bool) {
 	r.Sample(8, cs)
 }
 
+// c05Observers: the read-only operations agree with the exact value: empty iff the value is zero, canonical iff the
+// supplementary part is below 10^18, a clone is equal, the encoded form decodes to the same amount.
+func c05Observers(r *core.Result, m spice.Melange) {
+	r.Eval(1)
+	v := melVal(m)
+	mm := m
+	if got := mm.Empty(); got != (v.Sign() == 0) {
+		r.Violate("C05", "observer/empty", fmt.Sprintf("Empty() of %s (exact value %s) = %v", melStr(m), v, got), nil)
+	}
+	if got := m.IsCanonical(); got != (m.SupplementaryCurrency < e18) {
+		r.Violate("C05", "observer/canonical", fmt.Sprintf("IsCanonical() of %s = %v", melStr(m), got), nil)
+	}
+	if c := m.Clone(); c != m {
+		r.Violate("C05", "observer/clone", fmt.Sprintf("Clone() of %s = %s", melStr(m), melStr(c)), nil)
+	}
+	if mm != m {
+		r.Violate("C05", "observer/changed-operand", fmt.Sprintf("a read-only operation changed %s to %s", melStr(m), melStr(mm)), nil)
+	}
+	if b, err := mm.Encode(); err == nil {
+		if d, err := spice.Decode(b); err != nil || d != m {
+			r.Violate("C05", "observer/encode-decode", fmt.Sprintf("Decode(Encode(%s)) = %s err=%v", melStr(m), melStr(d), err), nil)
+		}
+	}
+	if m.Currency+m.SupplementaryCurrency < m.Currency || m.Currency^m.SupplementaryCurrency == 0 && m.Currency != 0 {
+		r.Nontriv("observer/" + c05Class(m.Currency) + c05Class(m.SupplementaryCurrency))
+	}
+}
+
 func c05New(r *core.Result, c, s uint64) {
 	r.Eval(1)
 	m := spice.New(c, s)
@@ -211,6 +239,10 @@ func c05Worker(w *core.WorkerCtx) {
 			}
 		}
 		for _, m := range mels {
+			c05Observers(r, m)
+			// amounts whose two parts add up to 2^64, or are equal: the parts are never to be combined as machine words
+			c05Observers(r, spice.Melange{Currency: -m.SupplementaryCurrency, SupplementaryCurrency: m.SupplementaryCurrency})
+			c05Observers(r, spice.Melange{Currency: m.SupplementaryCurrency, SupplementaryCurrency: m.SupplementaryCurrency})
 			for _, a := range mels {
 				c05Supply(r, m, a)
 			}
@@ -241,7 +273,10 @@ func c05Worker(w *core.WorkerCtx) {
 	for i := 0; i < n; i++ {
 		switch rng.Intn(4) {
 		case 0:
-			c05Supply(r, c05RandMel(rng), c05RandMel(rng))
+			m := c05RandMel(rng)
+			c05Observers(r, m)
+			c05Observers(r, spice.Melange{Currency: -m.SupplementaryCurrency, SupplementaryCurrency: m.SupplementaryCurrency})
+			c05Supply(r, m, c05RandMel(rng))
 		case 1:
 			c05Transfer(r, c05RandMel(rng), c05RandMel(rng), c05RandMel(rng), rng.Intn(2) == 0)
 		case 2:
